@@ -214,8 +214,20 @@ static sim::OpStats simulate(const sim::OpSim &cfg, F f)
 
 static const char *prop_of(const Op &op);
 // findings of the heap layer / access seam; apply to every execution (reference runs included)
-static void account_memory(Ctx &c, const Op &op, const sim::OpStats &st, const char *which)
+static std::string memory_key(const std::string &s) { return s.substr(0, s.find(" (pc")); }
+
+// `ref`: statistics of the one-member reference run when `st` is the simulated team execution; a memory
+// finding the team execution has and the one-member execution has not is (also) schedule / team dependence
+static void account_memory(Ctx &c, const Op &op, const sim::OpStats &st, const char *which, const sim::OpStats *ref = nullptr)
 {
+    std::set<std::string> ref_keys;
+    if (ref)
+    {
+        for (auto &s : ref->stray)
+            ref_keys.insert(memory_key(s));
+        for (auto &s : ref->oob)
+            ref_keys.insert(memory_key(s));
+    }
     for (auto &s : st.stray)
     {
         bool mism = s.compare(0, 10, "mismatched") == 0;
@@ -223,7 +235,10 @@ static void account_memory(Ctx &c, const Op &op, const sim::OpStats &st, const c
         std::string key = s;
         if (!c.seen_memory.insert(std::to_string(c.op_index) + key).second)
             continue;
-        c.violation(mism ? "mismatched-free" : badfree ? "bad-free" : "stray-write", {"C18"}, op, std::string("heap layer (") + which + ")", s);
+        std::vector<std::string> sprops = {"C18"};
+        if (ref && !mism && !ref_keys.count(memory_key(s)) && st.teams.size() && *std::max_element(st.teams.begin(), st.teams.end()) > 1)
+            sprops.push_back("C12");
+        c.violation(mism ? "mismatched-free" : badfree ? "bad-free" : "stray-write", sprops, op, std::string("heap layer (") + which + ")", s);
     }
     for (auto &s : st.oob)
     {
@@ -235,11 +250,13 @@ static void account_memory(Ctx &c, const Op &op, const sim::OpStats &st, const c
         std::vector<std::string> props = {"C18"};
         if (op.kind != plan::K_DELETE_OBJECT && op.kind != plan::K_HOST_ICV)
             props.push_back(prop_of(op));
+        if (ref && !ref_keys.count(key) && st.teams.size() && *std::max_element(st.teams.begin(), st.teams.end()) > 1)
+            props.push_back("C12"); // only the team execution goes out of bounds: its memory effects depend on team / schedule
         c.violation(uaf ? "use-after-free" : "out-of-bounds", props, op, std::string("poison map of the simulated heap (") + which + ")", s);
     }
 }
 
-static void account_main(Ctx &c, const Op &op, const sim::OpStats &st, uint64_t min_trip)
+static void account_main(Ctx &c, const Op &op, const sim::OpStats &st, uint64_t min_trip, const sim::OpStats *ref = nullptr)
 {
     RunResult &r = c.res;
     if (g_record)
@@ -310,7 +327,7 @@ static void account_main(Ctx &c, const Op &op, const sim::OpStats &st, uint64_t 
                  st.race.write_a ? "write" : "read", st.race.member_b, st.race.write_b ? "write" : "read", st.race.where.c_str(), st.race.pc_a, st.race.pc_b);
         c.violation("race", {"C12"}, op, "happens-before detector", buf);
     }
-    account_memory(c, op, st, "simulated run");
+    account_memory(c, op, st, "simulated run", ref);
 }
 
 static void check_canaries(Ctx &c, const Op &op, std::initializer_list<const HBuf *> bufs, bool is_main)
@@ -552,7 +569,7 @@ static void exec_transform(Ctx &c, const Op &op)
         do_main();
     }
     uint64_t trip = std::max<uint64_t>(op.kind == plan::K_EXTEND ? op.n : op.n, 1);
-    account_main(c, op, m.st, trip);
+    account_main(c, op, m.st, trip, &ref.st);
 
     // --- probes ---------------------------------------------------------------------------------
     unsigned logn = ilog2(std::max<uint64_t>(op.n, 1));
@@ -771,7 +788,7 @@ static void exec_merkle(Ctx &c, const Op &op)
         out = run(mc, op.dirty_bufs, op.garbage_seed, true, mst, mroot);
         g_misalign = false;
     }
-    account_main(c, op, mst, op.rows);
+    account_main(c, op, mst, op.rows, &rst);
     r.hash = fnv_vec(out, r.hash);
     c.last_out_digest = fnv_vec(out, 1);
 
@@ -869,7 +886,6 @@ static void exec_copy(Ctx &c, const Op &op)
     int eff = op.threads < 1 ? 1 : op.threads;
     uint64_t comp = (op.size + (uint64_t)eff - 1) / (uint64_t)eff;
     uint64_t trip = comp ? (op.size + comp - 1) / comp : 0;
-    account_main(c, op, st, std::max<uint64_t>(trip, 1));
     std::vector<uint64_t> out = D.vec();
     r.hash = fnv_vec(out, r.hash);
     c.last_out_digest = fnv_vec(out, 1);
@@ -913,6 +929,7 @@ static void exec_copy(Ctx &c, const Op &op)
         sim::icv_restore(icv1);
         r.ref_steps += rst.steps + rst.serial_steps;
         account_memory(c, op, rst, "one-member reference run");
+        account_main(c, op, st, std::max<uint64_t>(trip, 1), &rst);
         long db = first_diff_bits(out, D1.vec());
         if (db >= 0)
         {
